@@ -3,10 +3,12 @@
 use crate::report::Tier;
 
 pub mod c01;
+pub mod c02;
 pub mod c11;
 pub mod c12;
 pub mod c15;
 pub mod c16;
+pub mod c33;
 pub mod c41;
 pub mod c42;
 pub mod shapes;
@@ -16,11 +18,13 @@ type CheckFn = fn(Tier, u64) -> i32;
 fn table() -> Vec<(&'static str, CheckFn)> {
     vec![
         ("C01", c01::run),
+        ("C02", c02::run),
         ("C11", c11::run_c11),
         ("C12", c12::run),
         ("C14", c11::run_c14),
         ("C15", c15::run),
         ("C16", c16::run),
+        ("C33", c33::run),
         ("C41", c41::run),
         ("C42", c42::run),
     ]
